@@ -107,6 +107,7 @@ def run(prog, run):
     r5(prog, run)
     r6(prog, run)
     r7(prog, run, dec)
+    r8(prog, run, dec)
 
 
 def r1(prog, run, enc, dec):
@@ -285,11 +286,15 @@ def keyed_decode_verdict(prog, dec):
         return None
 
     def refine(f, cond, pol, st):
-        bo = f.binop(cond)
-        if bo and bo[0] in ('!=', '==') and 'generateHmacSha1' in f.fmt(cond) and isinstance(pol, bool):
-            matched = (bo[0] == '==') == pol
-            if matched:
-                return st | {'verified'}
+        if not isinstance(pol, bool):
+            return st
+        atoms = []
+        f._decompose(cond, pol, atoms, lambda node: (lambda v: v if isinstance(v, bool) else None)(ev.ev(node, st)))
+        for c, p in atoms:
+            bo = f.binop(f.skip(c))
+            if bo and bo[0] in ('!=', '==') and 'generateHmacSha1' in f.fmt(c) and isinstance(p, bool):
+                if (bo[0] == '==') == p:
+                    return st | {'verified'}
         return st
     exits, info = cfgx.explore(dec, frozenset(), transfer, lambda f, c, st: ev.ev(c, st), refine, max_states=600000)
     bad = {st: p for st, p in exits.items() if ('ret', True) in st and 'verified' not in st or (('ret', '?') in st and 'verified' not in st)}
@@ -462,3 +467,49 @@ def r7(prog, run, dec):
                           'and the truncated packet is accepted' % what)
         else:
             run.ok(rid, dec.loc(i), '%s unreachable when the attribute does not fit' % what)
+
+
+STRING_COMPARES = ('qstrncmp', 'qstrcmp', 'strncmp', 'strcmp', 'qstrnicmp', 'qstricmp', 'strncasecmp', 'strcasecmp')
+PARTIAL = ('startsWith', 'endsWith', 'contains', 'indexOf', 'left', 'right', 'mid', 'chopped', 'first', 'last', 'truncate', 'chop')
+
+
+def r8(prog, run, dec):
+    rid = run.rule('C14.R8', 'the received MESSAGE-INTEGRITY and FINGERPRINT are compared with the computed value in full: a byte-array / integer (in)equality or '
+                             'a fixed-length memcmp, never a C-string comparison (stops at the first NUL) or a prefix/substring test', floor=2)
+    found = 0
+    conds = []
+    for b in dec.blocks.values():
+        t = b.get('term')
+        if t and 'cond' in t and t.get('k') in ('if', '?:', '&&', '||'):
+            txt = dec.fmt(t['cond'])
+            which = 'MESSAGE-INTEGRITY' if 'generateHmacSha1' in txt else 'FINGERPRINT' if 'generateCrc32' in txt else None
+            if which:
+                conds.append((t['cond'], which))
+    for i, which in conds:
+        found += 1
+        run.instance(rid)
+        problems = []
+        cmp_nodes = [j for j in dec.walk(i) if dec.binop(j) and dec.binop(j)[0] in ('==', '!=') and ('generateHmacSha1' in dec.fmt(j) or 'generateCrc32' in dec.fmt(j))]
+        for j in dec.walk(i):
+            m = dec.nodes[j]
+            if m['k'] == 'call':
+                nm = (dec.sym(m) or {}).get('name', '')
+                if nm in STRING_COMPARES:
+                    problems.append('%s() treats the MAC as a C string and stops at its first zero byte: only a prefix of the %s is verified' % (nm, which))
+                elif nm in PARTIAL and which == 'MESSAGE-INTEGRITY':
+                    problems.append('%s() compares only part of the %s' % (nm, which))
+        if not problems and not cmp_nodes:
+            problems.append('the %s decision is not an (in)equality of the received and the computed value (%s)' % (which, dec.fmt(i, inline=False)[:60]))
+        if not problems and which == 'MESSAGE-INTEGRITY':
+            bo = dec.binop(cmp_nodes[0])
+            ts = [(dec.nodes[dec.skip(x)].get('t') or '') for x in bo[1:]]
+            if not all('QByteArray' in tt for tt in ts):
+                mem = [m for j in dec.walk(i) for m in [dec.nodes[j]] if m['k'] == 'call' and (dec.sym(m) or {}).get('name') in ('memcmp', 'equal', 'compare')]
+                if not mem:
+                    problems.append('the %s is not compared as two byte arrays (%s)' % (which, ' vs '.join(tt or '?' for tt in ts)))
+        if problems:
+            run.violation(rid, 'decode#%s#partial-compare' % which, dec.loc(i), problems[0] + ': a corrupted or wrongly keyed message can be accepted')
+        else:
+            run.ok(rid, dec.loc(i), '%s compared in full (%s)' % (which, dec.fmt(i, inline=False)[:60]))
+    if found < 2:
+        raise AnalysisBroken('C14.R8: integrity/fingerprint comparisons not found in decode (found %d)' % found)
